@@ -2,6 +2,7 @@
 //! properties: C01 C05
 //! note: convert_channel_err_internal (channelmanager.rs, whole function): of the errors a channel can answer a message with, only ChannelError::Close closes the channel - the close routine runs exactly once, with the error's own reason and text, and the channel is reported as to be dropped; every other error (Warn, WarnAndDisconnect, Ignore, Abort, SendError) is passed on unchanged, runs no close routine and keeps the channel
 //! note: MsgHandleErrInternal::from_chan_no_close (whole function): the action attached to an error that keeps the channel is the one its kind names (Warn: a warning is sent, the connection stays; WarnAndDisconnect: the connection is dropped with that warning; Ignore / Abort: nothing is said; Close / SendError: an error message), for this channel and with the error's own text
+//! trusted: R15 (deep slice): ChannelManager::handle_error: the if/else that chooses the message event queued for the peer, verbatim as a function of the internal error
 //! trusted: told_to_the_peer: ChannelError re-declared with the source's variants (AbortReason a Copy skeleton whose into_tx_abort_msg / to_string are uninterpreted), ErrorAction extracted; R7: the or-pattern arm is one arm per alternative; String::clone has the std meaning (vstd)
 //! trusted: R5: the generic `Close: FnOnce(ClosureReason, &str) -> (..)` is instantiated with a recorder object (`close(reason, &msg)` is written `close.call(reason, &msg)`: a call through FnOnce, once); MsgHandleErrInternal::from_chan_no_close / from_finish_shutdown are recorders of their arguments; ChannelError is extracted (AbortReason, ClosureReason opaque); ShutdownResult, ChannelUpdate, NodeId opaque
 //! trusted: assume_specification for core::cmp::max / core::cmp::min (std definitions): present in every unit so that a change that introduces them is verified instead of being rejected by the tool
@@ -105,6 +106,28 @@ impl MsgHandleErrInternal {
     ChannelError::Warn(msg) => LightningError { err: msg.clone(), action: msgs::ErrorAction::DisconnectPeerWithWarning { msg: msgs::WarningMessage { channel_id, data: msg }, }, },
 //@end
 }
+// ---- ChannelManager::handle_error: what is queued for the peer ----
+#[derive(Clone, Copy)] pub struct PublicKey { pub id: u64 }
+impl Clone for ErrorAction { #[verifier::external_body] fn clone(&self) -> (r: Self) ensures r == *self { unimplemented!() } }
+pub enum MessageSendEvent { SendTxAbort { node_id: PublicKey, msg: TxAbort }, HandleError { node_id: PublicKey, action: ErrorAction } }
+//@extract lightning/src/ln/channelmanager.rs :: impl ChannelManager :: fn handle_error<A>
+//@strip msgs
+//@slice R15
+    if let ErrorAction::IgnoreError = err_internal.err.action { $ign:any } else { $other:any } let mut holding_cell_res = None;
+//@with
+    fn event_queued_for_the_peer(err_internal: MsgHandleErrInternal, counterparty_node_id: PublicKey) -> Option<MessageSendEvent> {
+        let mut msg_event = None;
+        if let ErrorAction::IgnoreError = err_internal.err.action { $ign } else { $other }
+        msg_event }
+//@ret r
+//@ensures P C01,C15 whatever-an-error-asks-for-is-handed-to-the-peer-handler-as-it-is-and-an-ignored-error-sends-at-most-the-tx-abort-it-carries
+    err_internal.err.action is IgnoreError ==> r == (match err_internal.tx_abort { Some(t) => Some(MessageSendEvent::SendTxAbort { node_id: counterparty_node_id, msg: t }), None => None }),
+    !(err_internal.err.action is IgnoreError) ==> r == Some(MessageSendEvent::HandleError { node_id: counterparty_node_id, action: err_internal.err.action }),
+//@mutant every_error_handed_on_as_one_to_ignore
+    action: err_internal.err.action.clone(), });
+//@with
+    action: msgs::ErrorAction::IgnoreError, });
+//@end
 }
 }
 fn main() {}
